@@ -183,6 +183,8 @@ def run(ctx, rep):
     # recovery must never decode from parity bytes that were never written: the valid-size typestate of the parity files
     from .C17 import valid_size_rules
     valid_size_rules(P, rep, 'R-C05-7')
+    from .C17 import parity_read_valid_rule
+    parity_read_valid_rule(P, rep, 'R-C05-7p')
     pr = P.fn('parity_read')
     chk = [b for b in range(len(pr.blocks)) if pr.term(b).op == 'br' and len(pr.term(b).ops) == 3 and 'valid_size' in pr.expr(pr.term(b).ops[0])]
     rd = list(pr.calls('pread'))
